@@ -1,9 +1,17 @@
 (* Properties_C16.v -- C16: bsearch_s finds, qsort_s sorts.  Only theorem statements, each closed by [exact].
    bsearch_s: full (every element count, every array sorted with respect to the key).
-   qsort_s: not yet modelled in Coq; its part of the property is examined on the implementation only
-   (permutation, order, comparator arguments, bounds) and is labelled partial in the evidence. *)
+   qsort_s: the smoothsort of src/misc/qsort_s.c is transcribed in ModSort.v (tied to the code by comparing
+   the exact sequence of comparator calls and the final arrangement with the implementation on every case).
+   Proved for every element count, element type and comparator: the result is a permutation of the input,
+   and no element index outside [0, nmemb) is ever dereferenced (comparator operands and rotation slots);
+   the run depends on the elements only through the signs the comparator reports.
+   Order of the result: proved for every array of at most 7 elements (finite computation over all key
+   patterns, lifted to arbitrary elements/comparators by the parametricity theorem) -- the unbounded
+   statement (Leonardo-heap invariants) is NOT proved: this half is partial. *)
 From Coq Require Import List ZArith Lia Bool.
-From SC Require Import Base Wp Cfg ModSearch ProofsSearch.
+From Coq Require Import Permutation.
+From SC Require Import Base Wp Cfg ModSearch ProofsSearch ModSort ProofsSort ProofsSort7.
+Import ListNotations.
 From SC.Gen Require Import Consts.
 Local Open Scope Z_scope.
 
@@ -27,5 +35,37 @@ Theorem C16_bsearch_program_is_abstract : forall fuel key b0 size base nmemb m,
      m' = m /\ r = match bsearch_abs fuel cmp base nmemb with Some j => b0 + size * j | None => 0 end).
 Proof. exact bsearch_loop_abs. Qed.
 Print Assumptions C16_bsearch_program_is_abstract.
+
+(* ---------------- qsort_s ---------------- *)
+(* every completed run leaves a permutation of the input: nothing lost, duplicated or altered; any comparator *)
+Theorem C16_qsort_permutation : forall (A : Type) (cmp : A -> A -> Z) (l l' : list A) (tr : list (Z * Z)),
+  smoothsort A cmp l = Some (l', tr) -> Permutation l l' /\ length l' = length l.
+Proof. exact smoothsort_perm. Qed.
+Print Assumptions C16_qsort_permutation.
+(* the model answers None exactly when an element index outside [0, nmemb) would be dereferenced, a bookkeeping
+   index (lp[pshift-1]) would be negative, or a loop would not terminate within its bound: it never does,
+   for every array, every element count and every comparator (consistent or not) *)
+Theorem C16_qsort_stays_inside_array : forall (A : Type) (cmp : A -> A -> Z) (l : list A), smoothsort A cmp l <> None.
+Proof. exact smoothsort_total. Qed.
+Print Assumptions C16_qsort_stays_inside_array.
+(* the comparator is only ever applied to two elements of the array, and the run (comparator calls included)
+   depends on them only through the signs reported: mapping the elements and replacing the comparator by one
+   that agrees in sign maps the whole run *)
+Theorem C16_qsort_run_depends_on_signs_only : forall (A B : Type) (cmpA : A -> A -> Z) (cmpB : B -> B -> Z) (f : A -> B) (l : list A),
+  (forall a a', In a l -> In a' l -> (cmpA a a' >=? 0) = (cmpB (f a) (f a') >=? 0) /\ (cmpA a a' <=? 0) = (cmpB (f a) (f a') <=? 0)) ->
+  smoothsort B cmpB (map f l) = om (mf2 A B f) (smoothsort A cmpA l).
+Proof. exact smoothsort_map. Qed.
+Print Assumptions C16_qsort_run_depends_on_signs_only.
+(* order, bounded: every array of at most 7 elements, any element type, any comparator that reports the order of a key *)
+Theorem C16_qsort_sorted_partial : forall (A : Type) (cmp : A -> A -> Z) (key : A -> Z) (l : list A),
+  (forall a b, In a l -> In b l -> (0 <= cmp a b <-> key b <= key a) /\ (cmp a b <= 0 <-> key a <= key b)) ->
+  (length l <= 7)%nat ->
+  exists l' tr, smoothsort A cmp l = Some (l', tr) /\ Permutation l l' /\ sortedb (map key l') = true.
+Proof. exact smoothsort_sorted_small. Qed.
+Print Assumptions C16_qsort_sorted_partial.
+Example C16_qsort_example :
+  option_map fst (smoothsort Z zcmp [5; 3; 8; 1; 9; 2; 7; 7; 0; 4; 6; 3]) = Some [0; 1; 2; 3; 3; 4; 5; 6; 7; 7; 8; 9]
+  /\ (forall a b : Z, (0 <= zcmp a b <-> b <= a) /\ (zcmp a b <= 0 <-> a <= b)).
+Proof. split; [vm_compute; reflexivity|]. intros a b. unfold zcmp. destruct (Z.compare_spec a b); split; split; intros; lia. Qed.
 Example C16_example : bsearch_abs 5 (fun j => 3 - j) 0 5 = Some 3 /\ sorted_wrt (fun j => 3 - j) 0 5.
 Proof. split; [reflexivity|]. intros i j Hi Hij Hj. split; intros; lia. Qed.
